@@ -279,7 +279,7 @@ class Metadata(CbMixin, ProgMixin):
             target = self.piece_length
             if remainder:
                 start = current["length"] - remainder
-                if remainder < target:
+                if remainder <= target:
                     stop = -1
                     target -= remainder
                     remainder = 0
@@ -294,7 +294,7 @@ class Metadata(CbMixin, ProgMixin):
                 start = 0
                 current = self.files[file_index]
                 size = current["length"]
-                if size < target:
+                if size <= target:
                     stop = -1
                     target -= size
                     file_index += 1
@@ -305,6 +305,13 @@ class Metadata(CbMixin, ProgMixin):
                 pathnode = PathNode(start=start, stop=stop, **current)
                 piece.append(pathnode)
             self.piece_nodes.append(piece)
+        # empty files listed after the last byte belong to the last piece
+        while self.piece_nodes and file_index < len(self.files):
+            current = self.files[file_index]
+            if current["length"] == 0:
+                pathnode = PathNode(start=0, stop=-1, **current)
+                self.piece_nodes[-1].append(pathnode)
+            file_index += 1
 
     def _parse_tree(self, tree: dict, partials: list):
         """
